@@ -17,6 +17,12 @@ RULE = ("three generators, all against the real Replica.Restore(Follow) loop ste
         "checksum failures; (kill) follower child process under strace inject=<write|pwrite64|ftruncate|fsync|rename*|unlink*>:"
         "signal=KILL:when=k for sampled (quick) / all (thorough) k in three scenarios (fresh restore, resume over intact L0, "
         "resume needing L1/L2 bridging), sidecar-vs-content check, restart, converge, compare with Restore(latest); "
+        "(resume) 12 real scenarios: follower stopped with its sidecar 1/3/6 TXIDs AHEAD of the newest level-9 snapshot and restarted "
+        "against a replica with L0 intact / L0 compacted away (fillFollowGap needed) / nothing new (sidecar = replica max) / a sidecar "
+        "beyond every level (must still be refused); the synthetic listings place the sidecar at, just past, far past the snapshot, at and "
+        "beyond the replica maximum; the kill scenarios carry a snapshot older than every sidecar, so each restart resumes ahead of it; "
+        "in the fresh-restore kill scenario every syscall from the fsync of <out>.tmp to the end (sidecar publish, database publish, "
+        "directory syncs) is a kill point in the quick tier too; "
         "(race) list/open races: the wrapper runs primary-side operations inside the follower's OpenLTXFile call, i.e. between its "
         "listing and its k-th open (k = first, second): db.Compact(1) [+ L0Retention=1ns / EnforceL0RetentionByTime] or db.Compact(2) "
         "[+ EnforceRetentionByTXID], then the listed file(s) the follower is about to open vanish (first / middle / all but the newest / "
@@ -25,7 +31,7 @@ RULE = ("three generators, all against the real Replica.Restore(Follow) loop ste
         "follow_applied_ok gets the files ACTUALLY applied (a file whose open failed is not applied) and the failed flag; the model case "
         "carries the not-exist outcome per file, so a swallowed open error is both a model mismatch and a chain-rule violation. "
         "Cases: follow_poll (model = implementation on applied (level,min,max) sequence and sidecar), follow_resume "
-        "(validation decision), follow_applied_ok (chain rule / progress / furthest-reachable oracle on the implementation's "
+        "(validation decision from snapshots, sidecar and the per-level listing), follow_applied_ok (chain rule / progress / furthest-reachable oracle on the implementation's "
         "own output). distinct = distinct (entry,input); non-trivial = a poll that applied at least one file, or a resume "
         "decision with snapshots present or a refusal.")
 
@@ -135,6 +141,8 @@ def replay(v, path):
         args = ["-replay", src]
     elif r.get("kind") == "hist":
         args = ["-hist-seed", str(r["seed"]), "-hist-idx", str(r["idx"])]
+    elif r.get("kind") == "resume":
+        args = ["-resume-seed", str(r["seed"]), "-resume-idx", str(r["idx"])]
     elif r.get("kind") == "race":
         args = ["-race-seed", str(r["seed"]), "-race-idx", str(r["idx"])]
     elif r.get("kind") == "kill":
